@@ -465,6 +465,8 @@ class ExprMixin:
         b = self.unwrap_opt(b, st, "comparison operand")
         if not (isinstance(a, V) and isinstance(b, V)):
             raise Unsupported("ordering comparison of non-scalars")
+        if self.spec_mode and "none" in (a.sort.kind, b.sort.kind):
+            return z3.Bool(fresh_name("unspecified"))  # partial operation outside its domain (spec logic is total)
         if "real" in (a.sort.kind, b.sort.kind):
             x, y = self.real_of(a), self.real_of(b)
         else:
@@ -654,7 +656,7 @@ class ExprMixin:
                     return
             raise Unsupported("symbolic index into a tuple")
         if hasattr(self, "dict_getitem"):
-            r = self.dict_getitem(b0, idx, st)
+            r = self.dict_getitem(b0, idx, st, base)
             if r is not None:
                 yield from r
                 return
@@ -686,6 +688,8 @@ class ExprMixin:
         i = z3.simplify(i)
         if z3.is_int_value(i):
             return i.as_long() >= 0
+        if z3.is_app(i) and i.decl().kind() == z3.Z3_OP_ADD:
+            return all(self.known_nonneg(c, st) for c in i.children())
         if z3.is_const(i) and i.decl().kind() == z3.Z3_OP_UNINTERPRETED:
             for f in reversed(st.pc[-12:]):
                 for g in (f.children() if z3.is_and(f) else [f]):
